@@ -8,6 +8,7 @@ from ..prng import Rng
 from ..seams import F, T, reset_world
 from ..seams import LIB_ERRORS
 from ..core import real
+from ..oracle import caching_flags_off
 from ..oracle import (L, ed_verify, sig_message, base_mult, point_add, pubkey_of_seed,
                       scalar_to_int, int_to_scalar, as_key_arg, PREFIXES,
                       LOCK_FORMS, LIMITS, in_form, ARG_STYLES, styled_flags,
@@ -414,6 +415,10 @@ def one_shot(e, R, sa, run):
 
 def execute(plan, run):
     reset_world(plan['run_seed'])
+    if plan['idx'] % 7 == 3:
+        # every seventh run: some of the cache-this-value flags are switched off
+        if caching_flags_off(plan['run_seed']):
+            run.probe('caching_flags_off')
     exs = {eid: Ex(eid, spec) for eid, spec in plan['exchanges'].items()}
     if any(e.ext_src for e in exs.values()):
         # registered for the whole run; exchanges that do not configure it are not
